@@ -175,6 +175,8 @@ def loop_scenarios(tier, panics=True):
     out.append(_loop(loop_case(2, 3, 3, 2, 3, 1), pb=2))                # 2 rounds
     out.append(_loop(loop_case(4, 3, 3, 3, 1, 1), pb=1))                # T=3
     out.append(_loop(loop_case(2, 3, 3, 2, 1, 1, test=True)))           # test mode
+    # automatic sample size: the first round passes the threshold at once (one round, all interleavings)
+    out.append(_loop(loop_case(4, 3, 3, 2, 1, None, cost=[[0], [0], [200000], [0], [0]])))
     if panics:
         for site in range(5):
             for thread in (0, 1):
